@@ -243,33 +243,37 @@ theorem scan_line (s : Src) (ls : List UInt8) (c p : Nat) (hp : s[p]? ≠ some 3
 theorem blankBlockScan_skipBlankBlockGo (s : Src) (n p c : Nat) (hn : s.size - p + 1 ≤ n) (hp : p ≤ s.size) :
     blankBlockScan (rest s p) (rest s p) c =
       (let qc := skipBlankBlockGo s n p c
-       if s.size ≤ skipBlankInline s qc.1 then some (qc.2, [])
-       else if qc.2 == 0 then none else some (qc.2, rest s qc.1)) := by
+       if qc.2 = 0 ∧ qc.1 < s.size then none else some (qc.2, rest s qc.1)) := by
   induction n generalizing p c with
   | zero => omega
   | succ n ih =>
     rw [scan_spaces_go s (rest s p) c (s.size - p) p (Nat.le_refl _)]
     change blankBlockScan (rest s (skipBlankInline s p)) (rest s p) c = _
     rw [scan_line s (rest s p) c _ (skipBlankInline_stop s p)]
+    have hle := (skipBlankInline_after s p).le
     rcases h : skipEol s (skipBlankInline s p) with _ | q
-    · simp [skipBlankBlockGo, h]
+    · simp only [skipBlankBlockGo, h]
+      by_cases h1 : skipBlankInline s p < s.size
+      · have h2 : ¬ s.size ≤ skipBlankInline s p := by omega
+        have h3 : p < s.size := by omega
+        by_cases hc : c = 0 <;> simp [h1, h2, h3, hc]
+      · have h2 : s.size ≤ skipBlankInline s p := by omega
+        have h4 : rest s (skipBlankInline s p) = [] := rest_eq_nil_iff.mpr h2
+        simp [h1, h2, h4]
     · simp only [skipBlankBlockGo, h]
       have hq := skipEol_some h
-      have hle := (skipBlankInline_after s p).le
       have hq2 : q ≤ s.size := ((skipBlankInline_after s p).trans (skipEol_after h)).le_size hp
       exact ih q (c + 1) (by omega) hq2
 
-/-- T1: `blank_block` versus `skip_blank_block`.  With `(q, c) = skip_blank_block p`: when the line at
-`q` has a non-blank character the grammar's blank block is the same `c` line breaks ending at `q`
-(and fails when `c = 0`); when only spaces remain up to `EOF` the grammar's blank block also takes
-those spaces (`blank_inline? EOF`), which `skip_blank_block` leaves in place. -/
+/-- T1: `blank_block ::= (blank_inline? line_end)+` is `skip_blank_block`: with `(q, c) = skip_blank_block p`
+the grammar's blank block takes the same `c` line breaks and ends at the same position `q` (spaces that
+run to `EOF` included: `blank_inline? EOF`); it fails exactly when nothing was skipped (`c = 0`) and the
+input has not ended. -/
 theorem blankBlock_eq_skipBlankBlock (s : Src) (p : Nat) (hp : p ≤ s.size) :
     blankBlock (rest s p) =
       (let qc := skipBlankBlock s p
-       if s.size ≤ skipBlankInline s qc.1 then some (qc.2, [])
-       else if qc.2 == 0 then none else some (qc.2, rest s qc.1)) :=
+       if qc.2 = 0 ∧ qc.1 < s.size then none else some (qc.2, rest s qc.1)) :=
   blankBlockScan_skipBlankBlockGo s _ p 0 (Nat.le_refl _) hp
-
 
 /-! ## segments of the source, scanning loops -/
 
@@ -656,30 +660,13 @@ theorem commentChars_eq_getCommentLine {s : Src} (p : Nat) (hp : Bnd s p) :
   · rw [spanBytes_eq_seg]
     exact commentChars_commentLineEndGo s _ p (Nat.le_refl _)
 
-/-- the grammar's comment marker: `("###" | "##" | "#")` as (level, rest) -/
-def commentMarker : List UInt8 → Option (Nat × List UInt8)
-  | 35 :: 35 :: 35 :: r => some (3, r)
-  | 35 :: 35 :: r => some (2, r)
-  | 35 :: r => some (1, r)
-  | _ => none
-
 theorem commentMarker_two (d : UInt8) (r : List UInt8) (hd : d ≠ 35) :
     commentMarker (35 :: 35 :: d :: r) = some (2, d :: r) := by
-  unfold commentMarker
-  split
-  · rename_i heq; injection heq with _ h; injection h with _ h; injection h with h _; exact absurd h.symm hd
-  · rename_i heq; injection heq with _ h; injection h with _ h; rw [h]
-  · rename_i hn _ heq; injection heq with _ h; exact absurd h.symm (hn _)
-  · rename_i hn; exact absurd rfl (hn _)
+  simp [commentMarker, hd]
 
 theorem commentMarker_one (c : UInt8) (r : List UInt8) (hc : c ≠ 35) :
     commentMarker (35 :: c :: r) = some (1, c :: r) := by
-  unfold commentMarker
-  split
-  · rename_i heq; injection heq with _ h; injection h with h _; exact absurd h.symm hc
-  · rename_i heq; injection heq with _ h; injection h with h _; exact absurd h.symm hc
-  · rename_i heq; injection heq with _ h; rw [h]
-  · rename_i hn; exact absurd rfl (hn _)
+  simp [commentMarker, hc]
 
 /-- T1: `get_comment_level` is the grammar's ordered choice `"###" | "##" | "#"` -/
 theorem commentMarker_eq_getCommentLevel (s : Src) (p : Nat) :
@@ -710,5 +697,501 @@ theorem commentMarker_eq_getCommentLevel (s : Src) (p : Nat) :
     · have : commentMarker (b :: rest s (p + 1)) = none := by
         unfold commentMarker; split <;> simp_all
       simp [h1, h2, hb, this]
+
+
+/-! ## StringLiteral -/
+
+theorem skipHexGo_bounds (s : Src) (n p : Nat) : p ≤ skipHexGo s n p ∧ skipHexGo s n p ≤ p + n := by
+  induction n generalizing p with
+  | zero => simp [skipHexGo]
+  | succ n ih =>
+    simp only [skipHexGo]
+    split
+    · split
+      · have := ih (p + 1); omega
+      · omega
+    · omega
+
+theorem hexRun_zero (i : List UInt8) : hexRun 0 i = true := by simp [hexRun]
+theorem hexRun_nil (n : Nat) : hexRun (n + 1) [] = false := by simp [hexRun]
+theorem hexRun_cons (n : Nat) (b : UInt8) (r : List UInt8) :
+    hexRun (n + 1) (b :: r) = (isHexC b && hexRun n r) := by
+  simp [hexRun, Bool.and_comm, Bool.and_assoc, Bool.and_left_comm]
+
+theorem hexRun_eq_skipHexGo (s : Src) (n p : Nat) :
+    hexRun n (rest s p) = decide (skipHexGo s n p = p + n) := by
+  induction n generalizing p with
+  | zero => simp [hexRun_zero, skipHexGo]
+  | succ n ih =>
+    rcases rest_cases s p with ⟨h1, h2⟩ | ⟨b, h1, h2⟩
+    · simp [h2, hexRun_nil, skipHexGo, h1]
+    · rw [h2, hexRun_cons, isHexC_eq]
+      by_cases hb : isHexDigit b = true
+      · simp only [skipHexGo, h1, hb, if_true, Bool.true_and]
+        rw [ih (p + 1)]
+        have : (skipHexGo s n (p + 1) = p + 1 + n) ↔ (skipHexGo s n (p + 1) = p + (n + 1)) := by omega
+        simp [this]
+      · simp [skipHexGo, h1, hb]
+
+theorem skipUnicode_hexRun {s : Src} (hs : AsciiThenBoundary s) (p len : Nat) (hp : Bnd s p) :
+    match skipUnicodeEscapeSequence s p len with
+    | .ok _ q => q = p + len ∧ p + len ≤ s.size ∧ hexRun len (rest s p) = true
+    | .err _ _ => hexRun len (rest s p) = false
+    | .panic _ => False
+    | .fuel => False := by
+  have hgood := skipUnicodeEscapeSequence_good hs p len hp
+  have hb := skipHexGo_bounds s len p
+  have hsz := (skipHexGo_after s len p).le_size hp.le
+  have hrun := hexRun_eq_skipHexGo s len p
+  unfold skipUnicodeEscapeSequence at hgood ⊢
+  simp only [] at hgood ⊢
+  by_cases hc : skipHexGo s len p - p = len
+  · have : (skipHexGo s len p - p != len) = false := by simp [hc]
+    simp only [this, Bool.false_eq_true, if_false]
+    have e : skipHexGo s len p = p + len := by omega
+    exact ⟨e, by omega, by simp [hrun, e]⟩
+  · have : (skipHexGo s len p - p != len) = true := by simp [hc]
+    simp only [this, if_true] at hgood ⊢
+    have e : ¬ skipHexGo s len p = p + len := by omega
+    generalize (if skipHexGo s len p ≥ s.size then skipHexGo s len p else nextBoundary s (skipHexGo s len p + 1)) = stop
+      at hgood ⊢
+    rcases hsl : slice s p stop with _ | seq
+    · rw [hsl] at hgood; exact hgood.elim
+    · simp only [hsl]
+      simp [hrun, e]
+
+/-- lock-step invariant between the string scanner and `quoted_char*` -/
+def Lock (s : Src) (n p : Nat) (r : R Unit) : Prop :=
+  match r with
+  | .ok _ q => p ≤ q ∧ q ≤ s.size ∧ (s[q]? = none ∨ s[q]? = some 34) ∧
+      quotedChars n (rest s p) = (seg s p q, rest s q)
+  | .err _ _ => ∀ r', (quotedChars n (rest s p)).2 ≠ 34 :: r'
+  | .panic _ => False
+  | .fuel => False
+
+theorem lock_step {s : Src} {n p p2 : Nat} {r : R Unit} (h : Lock s n p2 r)
+    (hq : quotedChar (rest s p) = some (seg s p p2, rest s p2)) (h12 : p ≤ p2) : Lock s (n + 1) p r := by
+  cases r with
+  | ok u q =>
+    obtain ⟨a1, a2, a3, a4⟩ := h
+    refine ⟨by omega, a2, a3, ?_⟩
+    simp only [quotedChars, hq, a4]
+    rw [seg_append h12 a1]
+  | err e q =>
+    intro r'
+    have := h r'
+    simp only [quotedChars, hq]
+    exact this
+  | panic m => exact h
+  | fuel => exact h
+
+theorem lock_stop_ok {s : Src} {n p : Nat} (hp : p ≤ s.size) (hq : quotedChar (rest s p) = none)
+    (h : s[p]? = none ∨ s[p]? = some 34) : Lock s (n + 1) p (.ok () p) := by
+  refine ⟨Nat.le_refl _, hp, h, ?_⟩
+  simp [quotedChars, hq, seg_self]
+
+theorem lock_stop_err {s : Src} {n p : Nat} {e : PErr} {q : Nat} (hq : quotedChar (rest s p) = none)
+    (h : s[p]? ≠ some 34) : Lock s (n + 1) p (.err e q) := by
+  intro r'
+  simp only [quotedChars, hq]
+  intro hr
+  rcases rest_cases s p with ⟨g1, g2⟩ | ⟨b, g1, g2⟩
+  · rw [g2] at hr; cases hr
+  · rw [g2] at hr; injection hr with hb _; subst hb; exact h g1
+
+theorem quotedChar_plain {b : UInt8} (r : List UInt8) (h1 : b ≠ 92) (h2 : b ≠ 34) (h3 : b ≠ 10) (h4 : b ≠ 13) :
+    quotedChar (b :: r) = some ([b], r) := by
+  unfold quotedChar
+  split <;> simp_all
+
+theorem quotedChar_cr_other {c : UInt8} (r : List UInt8) (h : c ≠ 10) :
+    quotedChar (13 :: c :: r) = some ([13], c :: r) := by
+  unfold quotedChar
+  split <;> simp_all
+
+theorem quotedChar_bs_other {c : UInt8} (r : List UInt8) (h1 : c ≠ 92) (h2 : c ≠ 34) (h3 : c ≠ 117) (h4 : c ≠ 85) :
+    quotedChar (92 :: c :: r) = none := by
+  unfold quotedChar
+  split <;> simp_all
+
+theorem seg_two {s : Src} {p : Nat} {a b : UInt8} (h1 : s[p]? = some a) (h2 : s[p + 1]? = some b) :
+    seg s p (p + 2) = [a, b] := by
+  rw [seg_cons h1 (by omega), seg_cons h2 (by omega), seg_self]
+
+theorem seg_one {s : Src} {p : Nat} {a : UInt8} (h1 : s[p]? = some a) : seg s p (p + 1) = [a] := by
+  rw [seg_cons h1 (by omega), seg_self]
+
+theorem rest_drop (s : Src) (p k : Nat) : (rest s p).drop k = rest s (p + k) := by
+  simp [rest, List.drop_drop]
+
+theorem seg_take (s : Src) (p k : Nat) : (rest s p).take k = seg s p (p + k) := by
+  simp [seg]
+
+theorem scanStringGo_lock {s : Src} (hs : AsciiThenBoundary s) (n p : Nat) (hn : s.size - p ≤ n) (hp : p ≤ s.size) :
+    Lock s n p (scanStringGo s n p) := by
+  induction n generalizing p with
+  | zero =>
+    have hnone : s[p]? = none := by simp; omega
+    refine ⟨Nat.le_refl _, hp, Or.inl hnone, ?_⟩
+    simp [quotedChars, seg_self]
+  | succ n ih =>
+    rcases rest_cases s p with ⟨h1, h2⟩ | ⟨b, h1, h2⟩
+    · simp only [scanStringGo, h1]
+      exact lock_stop_ok hp (by simp [h2, quotedChar]) (Or.inl h1)
+    · have hlt := get_lt h1
+      by_cases hb : b = 92
+      · subst hb
+        rcases rest_cases s (p + 1) with ⟨g1, g2⟩ | ⟨c, g1, g2⟩
+        · simp only [scanStringGo, h1, g1]
+          exact lock_stop_err (by simp [h2, g2, quotedChar]) (by simp [h1])
+        · have hlt2 := get_lt g1
+          by_cases hc1 : c = 92
+          · subst hc1
+            simp only [scanStringGo, h1, g1]
+            refine lock_step (ih (p + 2) (by omega) (by omega)) ?_ (by omega)
+            rw [h2, g2, seg_two h1 g1]; simp [quotedChar]
+          · by_cases hc2 : c = 34
+            · subst hc2
+              simp only [scanStringGo, h1, g1]
+              refine lock_step (ih (p + 2) (by omega) (by omega)) ?_ (by omega)
+              rw [h2, g2, seg_two h1 g1]; simp [quotedChar]
+            · by_cases hc3 : c = 117
+              · subst hc3
+                have hb2 : Bnd s (p + 2) := bnd_succ hs g1 (by decide)
+                have hu := skipUnicode_hexRun hs (p + 2) 4 hb2
+                simp only [scanStringGo, h1, g1]
+                rcases hr : skipUnicodeEscapeSequence s (p + 2) 4 with ⟨_, q⟩ | ⟨e, q⟩ | m | _
+                · rw [hr] at hu
+                  obtain ⟨e1, e2, e3⟩ := hu
+                  subst e1
+                  simp only
+                  refine lock_step (ih (p + 2 + 4) (by omega) (by omega)) ?_ (by omega)
+                  rw [h2, g2]
+                  have : quotedChar (92 :: 117 :: rest s (p + 1 + 1)) =
+                      some (92 :: 117 :: (rest s (p + 1 + 1)).take 4, (rest s (p + 1 + 1)).drop 4) := by
+                    simp [quotedChar, e3]
+                  rw [this, rest_drop, seg_take,
+                    seg_append (s := s) (p := p) (q := p + 2) (r := p + 2 + 4) (by omega) (by omega), seg_two h1 g1]
+                  rfl
+                · rw [hr] at hu
+                  simp only
+                  exact lock_stop_err (by rw [h2, g2]; simp [quotedChar, hu]) (by simp [h1])
+                · rw [hr] at hu; exact hu.elim
+                · rw [hr] at hu; exact hu.elim
+              · by_cases hc4 : c = 85
+                · subst hc4
+                  have hb2 : Bnd s (p + 2) := bnd_succ hs g1 (by decide)
+                  have hu := skipUnicode_hexRun hs (p + 2) 6 hb2
+                  simp only [scanStringGo, h1, g1]
+                  rcases hr : skipUnicodeEscapeSequence s (p + 2) 6 with ⟨_, q⟩ | ⟨e, q⟩ | m | _
+                  · rw [hr] at hu
+                    obtain ⟨e1, e2, e3⟩ := hu
+                    subst e1
+                    simp only
+                    refine lock_step (ih (p + 2 + 6) (by omega) (by omega)) ?_ (by omega)
+                    rw [h2, g2]
+                    have : quotedChar (92 :: 85 :: rest s (p + 1 + 1)) =
+                        some (92 :: 85 :: (rest s (p + 1 + 1)).take 6, (rest s (p + 1 + 1)).drop 6) := by
+                      simp [quotedChar, e3]
+                    rw [this, rest_drop, seg_take,
+                      seg_append (s := s) (p := p) (q := p + 2) (r := p + 2 + 6) (by omega) (by omega), seg_two h1 g1]
+                    rfl
+                  · rw [hr] at hu
+                    simp only
+                    exact lock_stop_err (by rw [h2, g2]; simp [quotedChar, hu]) (by simp [h1])
+                  · rw [hr] at hu; exact hu.elim
+                  · rw [hr] at hu; exact hu.elim
+                · have hq : quotedChar (rest s p) = none := by
+                    rw [h2, g2]; exact quotedChar_bs_other _ hc1 hc2 hc3 hc4
+                  have : scanStringGo s (n + 1) p = .err (mkErr (.unknownEscapeSequence (some c)) p) p := by
+                    simp only [scanStringGo, h1, g1]
+                    split <;> simp_all
+                  rw [this]
+                  exact lock_stop_err hq (by simp [h1])
+      · by_cases hq34 : b = 34
+        · subst hq34
+          simp only [scanStringGo, h1]
+          exact lock_stop_ok hp (by simp [h2, quotedChar]) (Or.inr h1)
+        · by_cases hnl : b = 10
+          · subst hnl
+            simp only [scanStringGo, h1]
+            exact lock_stop_err (by simp [h2, quotedChar]) (by simp [h1])
+          · have hgo : scanStringGo s (n + 1) p = scanStringGo s n (p + 1) := by
+              simp only [scanStringGo, h1]
+              try (split <;> simp_all)
+            rw [hgo]
+            by_cases hcr : b = 13
+            · subst hcr
+              rcases rest_cases s (p + 1) with ⟨g1, g2⟩ | ⟨c, g1, g2⟩
+              · refine lock_step (ih (p + 1) (by omega) (by omega)) ?_ (by omega)
+                rw [h2, g2, seg_one h1]; simp [quotedChar]
+              · by_cases hc : c = 10
+                · subst hc
+                  have hlt2 := get_lt g1
+                  have : ∃ e q, scanStringGo s n (p + 1) = .err e q := by
+                    cases n with
+                    | zero => omega
+                    | succ n' => exact ⟨mkErr .unterminatedStringLiteral (p + 1), p + 1, by simp [scanStringGo, g1]⟩
+                  obtain ⟨e, q, he⟩ := this
+                  rw [he]
+                  exact lock_stop_err (by rw [h2, g2]; simp [quotedChar]) (by simp [h1])
+                · refine lock_step (ih (p + 1) (by omega) (by omega)) ?_ (by omega)
+                  rw [h2, g2, seg_one h1, quotedChar_cr_other _ hc]
+            · refine lock_step (ih (p + 1) (by omega) (by omega)) ?_ (by omega)
+              rw [h2, seg_one h1, quotedChar_plain _ hb hq34 hnl hcr]
+
+/-- T1/T2: the string-literal scanner of `get_inline_expression` (`scan` from after the opening
+quote, then `expect_byte('"')`) accepts exactly the grammar's `StringLiteral` — the same escape set
+`\\ \" \uXXXX \UXXXXXX`, no raw line end — with the same raw value `s[p+1..q)`. -/
+theorem stringLiteral_eq_scanString {s : Src} (hs : AsciiThenBoundary s) (p : Nat) (h : s[p]? = some 34) :
+    match scanString s (p + 1) with
+    | .ok _ q =>
+      (s[q]? = some 34 ∧ stringLiteral (rest s p) = some (seg s (p + 1) q, rest s (q + 1))) ∨
+      (s[q]? = none ∧ stringLiteral (rest s p) = none)
+    | .err _ _ => stringLiteral (rest s p) = none
+    | .panic _ => False
+    | .fuel => False := by
+  have hlt := get_lt h
+  have hl := scanStringGo_lock hs (s.size - (p + 1)) (p + 1) (Nat.le_refl _) (by omega)
+  have hlen : (rest s (p + 1)).length = s.size - (p + 1) := by simp [rest]
+  unfold scanString
+  rcases hr : scanStringGo s (s.size - (p + 1)) (p + 1) with ⟨_, q⟩ | ⟨e, q⟩ | m | _
+  · rw [hr] at hl
+    obtain ⟨a1, a2, a3, a4⟩ := hl
+    simp only
+    rcases a3 with a3 | a3
+    · right
+      refine ⟨a3, ?_⟩
+      rw [rest_cons h]
+      simp only [stringLiteral, hlen, a4, rest_nil a3]
+    · left
+      refine ⟨a3, ?_⟩
+      rw [rest_cons h]
+      simp only [stringLiteral, hlen, a4, rest_cons a3]
+  · rw [hr] at hl
+    simp only
+    rw [rest_cons h]
+    simp only [stringLiteral, hlen]
+    have := hl
+    unfold Lock at this
+    simp only at this
+    split
+    · rename_i r'' heq
+      exact absurd heq (this r'')
+    · rfl
+  · rw [hr] at hl; exact hl.elim
+  · rw [hr] at hl; exact hl.elim
+
+
+/-! ## VariantKey: the ordered choice `NumberLiteral | Identifier` is decided by the first byte -/
+
+theorem numStart_not_alpha : ∀ b : UInt8, (isDigit b || b == 45) = true → isAlpha b = false := by
+  apply forall_uint8; decide +kernel
+
+/-- T1: `get_variant_key` looks at one byte (`is_number_start`) to choose between a number and an
+identifier key; the grammar tries `NumberLiteral` first and `Identifier` second.  The two agree because
+the rules exclude each other on the first byte. -/
+theorem variantKey_choice (s : Src) (p : Nat) :
+    (isNumberStart s p = true → identifier (rest s p) = none) ∧
+    (isNumberStart s p = false → numberLiteral (rest s p) = none) := by
+  rcases rest_cases s p with ⟨h1, h2⟩ | ⟨b, h1, h2⟩
+  · simp [isNumberStart, h1, h2, identifier, numberLiteral, numberAfterSign, digits]
+  · constructor
+    · intro h
+      have hb : (isDigit b || b == 45) = true := by simpa [isNumberStart, h1] using h
+      have hna : isAlpha b = false := numStart_not_alpha b hb
+      simp [h2, identifier, isAlphaC_eq, hna]
+    · intro h
+      have hb : (isDigit b || b == 45) = false := by simpa [isNumberStart, h1] using h
+      have hd : isDigit b = false := by
+        cases hx : isDigit b <;> simp_all
+      have h45 : b ≠ 45 := by
+        intro hx; subst hx; simp at hb
+      rw [h2, numberLiteral_no_sign _ (by intro r hr; injection hr with hx _; exact h45 hx)]
+      simp [numberAfterSign, digits, isDigitC_eq, hd]
+
+
+/-! ## inline_text: `text_char+` -/
+
+theorem textRun_special {b : UInt8} (r : List UInt8) (h : b = 10 ∨ b = 123 ∨ b = 125) :
+    textRun (b :: r) = ([], b :: r) := by
+  rcases h with rfl | rfl | rfl <;> simp [textRun]
+
+theorem textRun_crlf (r : List UInt8) : textRun (13 :: 10 :: r) = ([], 13 :: 10 :: r) := by
+  simp [textRun]
+
+theorem textRun_cr_eof : textRun [13] = ([13], []) := by
+  simp [textRun]
+
+theorem textRun_cr_other {c : UInt8} (r : List UInt8) (h : c ≠ 10) :
+    textRun (13 :: c :: r) = (13 :: (textRun (c :: r)).1, (textRun (c :: r)).2) := by
+  conv => lhs; unfold textRun
+  split
+  · rename_i heq; simp at heq; exact absurd heq.1 h
+  · rename_i heq; simp at heq; obtain ⟨rfl, rfl⟩ := heq; simp
+  · rename_i heq; simp at heq
+
+theorem textRun_plain {b : UInt8} (r : List UInt8) (h1 : b ≠ 10) (h2 : b ≠ 123) (h3 : b ≠ 125) (h4 : b ≠ 13) :
+    textRun (b :: r) = (b :: (textRun r).1, (textRun r).2) := by
+  conv => lhs; unfold textRun
+  split <;> simp_all
+
+/-- where the run of text chars ends, given the first special byte `e` found by `memchr3` -/
+def textEnd (s : Src) (p e : Nat) : Nat :=
+  if s[e]? = some 10 ∧ p < e ∧ s[e - 1]? = some 13 then e - 1 else e
+
+theorem textRun_memchr3Go (s : Src) (n p : Nat) (hn : s.size - p ≤ n) :
+    match memchr3Go s n p with
+    | some e => p ≤ e ∧ e < s.size ∧ (s[e]? = some 10 ∨ s[e]? = some 123 ∨ s[e]? = some 125) ∧
+        textRun (rest s p) = (seg s p (textEnd s p e), rest s (textEnd s p e))
+    | none => textRun (rest s p) = (seg s p s.size, []) := by
+  induction n generalizing p with
+  | zero =>
+    have : rest s p = [] := rest_eq_nil_iff.mpr (by omega)
+    have hs : seg s p s.size = [] := by unfold seg; rw [this]; simp
+    simp [memchr3Go, this, textRun, hs]
+  | succ n ih =>
+    rcases rest_cases s p with ⟨h1, h2⟩ | ⟨b, h1, h2⟩
+    · have hs : seg s p s.size = [] := by unfold seg; rw [h2]; simp
+      simp [memchr3Go, h1, h2, textRun, hs]
+    · have hlt := get_lt h1
+      by_cases hsp : b = 10 ∨ b = 123 ∨ b = 125
+      · have hc : (b == 10 || b == 123 || b == 125) = true := by
+          rcases hsp with rfl | rfl | rfl <;> decide
+        simp only [memchr3Go, h1, hc, if_true]
+        refine ⟨Nat.le_refl _, hlt, ?_, ?_⟩
+        · rcases hsp with rfl | rfl | rfl <;> simp [h1]
+        · have : textEnd s p p = p := by simp [textEnd]
+          rw [this, seg_self, h2, textRun_special _ hsp]
+      · have hb10 : b ≠ 10 := fun h => hsp (Or.inl h)
+        have hb123 : b ≠ 123 := fun h => hsp (Or.inr (Or.inl h))
+        have hb125 : b ≠ 125 := fun h => hsp (Or.inr (Or.inr h))
+        have hc : (b == 10 || b == 123 || b == 125) = false := by simp [hb10, hb123, hb125]
+        simp only [memchr3Go, h1, hc, Bool.false_eq_true, if_false]
+        by_cases hcrlf : b = 13 ∧ s[p + 1]? = some 10
+        · obtain ⟨rfl, g1⟩ := hcrlf
+          have hlt2 := get_lt g1
+          cases n with
+          | zero => omega
+          | succ n' =>
+            simp only [memchr3Go, g1]
+            refine ⟨by omega, hlt2, Or.inl g1, ?_⟩
+            have : textEnd s p (p + 1) = p := by simp [textEnd, g1, h1]
+            rw [this, seg_self, h2, rest_cons g1, textRun_crlf]
+        · -- the text run continues over `b`
+          have htr : textRun (rest s p) = (b :: (textRun (rest s (p + 1))).1, (textRun (rest s (p + 1))).2) := by
+            rw [h2]
+            by_cases h13 : b = 13
+            · subst h13
+              rcases rest_cases s (p + 1) with ⟨g1, g2⟩ | ⟨c, g1, g2⟩
+              · rw [g2, textRun_cr_eof]; simp [textRun]
+              · have hc10 : c ≠ 10 := by intro h; subst h; exact hcrlf ⟨rfl, g1⟩
+                rw [g2, textRun_cr_other _ hc10]
+            · exact textRun_plain _ hb10 hb123 hb125 h13
+          have hi := ih (p + 1) (by omega)
+          rcases hm : memchr3Go s n (p + 1) with _ | e
+          · rw [hm] at hi
+            simp only at hi ⊢
+            rw [htr, hi, seg_cons h1 (by omega)]
+          · rw [hm] at hi
+            simp only at hi ⊢
+            obtain ⟨a1, a2, a3, a4⟩ := hi
+            have hte : textEnd s p e = textEnd s (p + 1) e := by
+              unfold textEnd
+              by_cases he : e = p + 1
+              · subst he
+                have : ¬ (s[p + 1]? = some 10 ∧ s[p]? = some 13) := by
+                  rintro ⟨x1, x3⟩
+                  rw [h1] at x3
+                  injection x3 with x3
+                  exact hcrlf ⟨x3, x1⟩
+                simp
+                intro x1 x3
+                exact this ⟨x1, x3⟩
+              · have : (p < e) = (p + 1 < e) := by apply propext; omega
+                simp [this]
+            have hge : p + 1 ≤ textEnd s (p + 1) e := by
+              unfold textEnd; split <;> omega
+            refine ⟨by omega, a2, a3, ?_⟩
+            rw [htr, a4, hte, seg_cons h1 (by omega)]
+
+
+/-- the end of the grammar's text run inside the slice `get_text_slice` returns: a line-feed slice carries
+its `\n` -/
+def textStop (term : Termination) (stop : Nat) : Nat :=
+  match term with
+  | .lineFeed => stop - 1
+  | _ => stop
+
+/-- T1: `get_text_slice` versus `inline_text ::= text_char+`: the slice starts at the cursor and covers
+exactly the grammar's run of text chars (plus the `\n` itself for a line-feed termination); the four
+terminations are the four things that can follow a run: `\n`, `\r\n`, `{`, end of input; `}` is the error. -/
+theorem textRun_eq_getTextSlice (s : Src) (p : Nat) (hp : p ≤ s.size) :
+    match getTextSlice s p with
+    | .ok (start, stop, _, term) q => start = p ∧
+        textRun (rest s p) = (seg s p (textStop term stop), rest s (textStop term stop)) ∧
+        (match term with
+         | .lineFeed => s[stop - 1]? = some 10 ∧ q = stop ∧ p < stop
+         | .crlf => s[stop]? = some 13 ∧ s[stop + 1]? = some 10 ∧ q = stop + 1
+         | .placeableStart => s[stop]? = some 123 ∧ q = stop
+         | .eof => stop = s.size ∧ q = s.size)
+    | .err _ q => s[q]? = some 125 ∧ textRun (rest s p) = (seg s p q, rest s q)
+    | .panic _ => False
+    | .fuel => False := by
+  unfold getTextSlice
+  have hng : ¬ p > s.size := by omega
+  simp only [hng, if_false]
+  have hm := textRun_memchr3Go s (s.size - p) p (Nat.le_refl _)
+  unfold memchr3
+  rcases hme : memchr3Go s (s.size - p) p with _ | e
+  · rw [hme] at hm
+    simp only at hm ⊢
+    have : rest s s.size = [] := rest_eq_nil_iff.mpr (Nat.le_refl _)
+    simp [textStop, hm, this]
+  · rw [hme] at hm
+    obtain ⟨a1, a2, a3, a4⟩ := hm
+    simp only
+    rcases a3 with a3 | a3 | a3
+    · simp only [a3]
+      by_cases hcr : e > p ∧ s[e - 1]? = some 13
+      · have hc : (e > p ∧ (s[e - 1]? == some (13 : UInt8)) = true) := ⟨hcr.1, by simp [hcr.2]⟩
+        simp only [hc, and_self, if_true]
+        have hte : textEnd s p e = e - 1 := by simp [textEnd, a3, hcr.1, hcr.2]
+        have he1 : e - 1 + 1 = e := by omega
+        simp [textStop, a4, hte, hcr.2, he1, a3]
+      · have hc : ¬ (e > p ∧ (s[e - 1]? == some (13 : UInt8)) = true) := by
+          intro h; exact hcr ⟨h.1, by simpa using h.2⟩
+        simp only [hc, if_false]
+        have hte : textEnd s p e = e := by
+          unfold textEnd
+          have : ¬ (s[e]? = some 10 ∧ p < e ∧ s[e - 1]? = some 13) := fun h => hcr ⟨h.2.1, h.2.2⟩
+          simp [this]
+        have hp1 : p < e + 1 := by omega
+        simp [textStop, a4, hte, a3, hp1]
+    · simp only [a3]
+      have hte : textEnd s p e = e := by simp [textEnd, a3]
+      simp [textStop, a4, hte, a3]
+    · simp only [a3]
+      have hte : textEnd s p e = e := by simp [textEnd, a3]
+      simp [a4, hte, a3]
+
+
+/-! ## callee rule -/
+
+theorem isCalleeC_eq : ∀ c : UInt8, isCalleeC c = (isUpper c || isDigit c || c == 95 || c == 45) := by
+  apply forall_uint8; decide +kernel
+
+theorem alpha_callee : ∀ b : UInt8, isAlpha b = true → (isUpper b || isDigit b || b == 95 || b == 45) = isUpperC b := by
+  apply forall_uint8; decide +kernel
+
+/-- T2: on an identifier (first byte a letter) Rust's `is_callee` (every byte in `[A-Z0-9_-]`) is the
+grammar's callee rule `[A-Z][A-Z0-9_-]*` -/
+theorem calleeOk_eq_isCallee (s : Src) (sp : Span) (b : UInt8) (r : List UInt8)
+    (h : spanBytes s sp = b :: r) (hb : isAlpha b = true) :
+    calleeOk (spanBytes s sp) = isCallee s sp := by
+  unfold isCallee
+  rw [h]
+  have hfun : isCalleeC = fun c => isUpper c || isDigit c || c == 95 || c == 45 := funext isCalleeC_eq
+  simp only [calleeOk, List.all_cons, alpha_callee b hb, hfun]
 
 end FluentProofs.SpecLex
